@@ -67,7 +67,8 @@ def seq_for(member: str, k: int):
 
 def text_for(k: int):
     return {"en": {'["M", 2, 235577344, 352256]': {"suit-text-vendor-name": "Nordic Semiconductor ASA",
-                                                    "suit-text-model-name": f"model-{k}"},
+                                                    # (every fifth text carries characters that text tools treat as line breaks)
+                                                    "suit-text-model-name": f"model-{k}" + ("\u0085next\u2028line\x0cpage" if k % 5 == 3 else "")},
                    "suit-text-manifest-description": "d" * (k % 40)}}
 
 
